@@ -1278,6 +1278,10 @@ class Wavefront:
         fpm = 1 - fpm
 
         dbar = self.data
+        if isinstance(lyot, Wavefront):
+            # the stop is applied as an array, as in babinet()
+            lyot = lyot.data
+
         if lyot is not None:
             if np.iscomplexobj(lyot):
                 lyot = np.conj(lyot)
